@@ -63,6 +63,20 @@ DivModSmall(a,d) ==
                   ELSE LET t == r*256 + a[i] IN G(i-1, t % d, [q EXCEPT ![i] = t \div d])
   IN G(Len(a), 0, [i \in 1..Len(a) |-> 0])
 
+\* long division by an arbitrary divisor d > 0: <<quotient, remainder>> (one quotient limb per step, found by bisection)
+DivMod(a, d) ==
+  LET RECURSIVE Digit(_,_,_)      \* largest k in lo..hi with k*d <= r
+      Digit(r, lo, hi) == IF lo = hi THEN lo ELSE LET mid == (lo + hi + 1) \div 2 IN IF Leq(MulSmall(d, mid), r) THEN Digit(r, mid, hi) ELSE Digit(r, lo, mid - 1)
+      RECURSIVE G(_,_,_)
+      G(i, r, q) == IF i = 0 THEN <<Strip(q), r>>
+                    ELSE LET r1 == Strip(<<a[i]>> \o r)            \* r * 256 + a[i]
+                             k == Digit(r1, 0, 255)
+                             r2 == Sub(r1, MulSmall(d, k))
+                         IN IF k >= 0 /\ Len(r2) >= 0 THEN G(i-1, r2, [q EXCEPT ![i] = k]) ELSE <<q, r>>
+  IN G(Len(a), Zero, [i \in 1..Len(a) |-> 0])
+FloorDiv(n, d) == DivMod(n, d)[1]
+CeilDiv(n, d) == LET qr == DivMod(n, d) IN IF qr[2] = Zero THEN qr[1] ELSE Add(qr[1], One)
+
 \* big-endian bytes, left-padded to width w (w = 0: minimal, zero is <<>>)
 ToBE(a,w) == LET r == Rev(a) IN IF Len(r) >= w THEN r ELSE [j \in 1..(w-Len(r)) |-> 0] \o r
 ByteLen(a) == Len(a)
